@@ -389,7 +389,7 @@ def run(ctx, ck):
 
     # ---------------------------------------------------------------- D4
     nsets = run_det_rule(ctx, ck)
-    ck.floor('set iterations inspected', nsets, 1)
+    ck.info('set_iterations_inspected', nsets)
     ck.undecided += ['bit-for-bit equality of floating point results across BLAS threading',
                      'time stamps behind --timing go to stderr (nested timer function is not part '
                      'of the call graph)']
